@@ -61,7 +61,7 @@ def rule_document(ck: Check, repo: Repo) -> None:
         def event(self, text, call, it):
             f = ast.unparse(call.func)
             if f == f"{buf}.write" and call.args:
-                return ("write", canon_fstring(ast.unparse(call.args[0])))
+                return ("write", canon_fstring(it.text(call.args[0])))
             if f.endswith(".open"):
                 return ("open", text)
             return None
@@ -119,9 +119,19 @@ def rule_document(ck: Check, repo: Repo) -> None:
         lsec = [e[1] for c, e in ev if c == ("each (lic, path) in sorted(self.licenses.items())",) and e[0] == "write"]
         opens = [e[1] for c, e in ev if c == ("each (lic, path) in sorted(self.licenses.items())",) and e[0] == "open"]
         if lref:
-            for frag in ("f'LicenseID: {lic}\\n'", "'LicenseName: NOASSERTION\\n'", "f'ExtractedText: <text>{fp.read()}</text>\\n'"):
+            for frag in ("f'LicenseID: {lic}\\n'", "'LicenseName: NOASSERTION\\n'"):
                 if frag not in lsec:
                     r.violation(q, "LicenseRef section", f"missing {frag}; got {lsec}", repo.loc(fn))
+            # the extracted text is what is read from the handle opened in the same iteration
+            ext = [x for x in lsec if "ExtractedText" in x]
+            ok_ext = len(ext) == 1 and re.fullmatch(r"f'ExtractedText: <text>\{(.+)\.read\(\)\}</text>\\n'", ext[0]) is not None
+            if ok_ext:
+                recv = re.fullmatch(r"f'ExtractedText: <text>\{(.+)\.read\(\)\}</text>\\n'", ext[0]).group(1)
+                with_targets = {ast.unparse(i.optional_vars) for n in ast.walk(fn) if isinstance(n, ast.With) for i in n.items if i.optional_vars is not None}
+                ok_ext = recv in with_targets or recv.startswith("__opaque__") or recv in opens or recv == "(Path(self.path) / path).open(encoding='utf-8')"
+            if not ok_ext:
+                r.violation(q, "LicenseRef section", f"ExtractedText must be <text>{{handle.read()}}</text> of the opened licence file; got {ext}",
+                            repo.loc(fn))
             if opens != ["(Path(self.path) / path).open(encoding='utf-8')"]:
                 r.violation(q, "LicenseRef text source", f"{opens}", repo.loc(fn))
         elif lref is False and lsec:
